@@ -191,7 +191,7 @@ def parseable_url_without_redirection(data):
             return None
         for q in (False, True):
             c = canonicalize_url(s, quoted=q)
-            if infer_redirection(c) != c:
+            if infer_redirection(c) != c or infer_redirection(c.lower()) != c.lower():   # fingerprint_url: canonicalize, lower-case, then infer
                 return None
     except Exception:
         return s    # let the evaluator see (and report) whatever raises
